@@ -65,6 +65,8 @@ type Thread struct {
 	VC       []uint32
 	Blocked  int // number of times this thread was found disabled at a scheduling point
 	steps    int
+	// StartStep is the scheduling step at which the thread first ran (-1: never).
+	StartStep int
 }
 
 // Point is one recorded choice.
@@ -138,6 +140,7 @@ type Exec struct {
 	Panics    []string // controlled threads that died with a panic
 	Races     []Race
 	StatesNew int // states first visited by this execution (cache mode)
+	Ticks     int // early clock ticks taken
 	clock     *Obj
 	shadow    map[uintptr]*shadow
 	User      any // harness-owned per-execution data
@@ -316,7 +319,7 @@ func ChooseDev(n int, desc string) int {
 
 func (x *Exec) spawn(name string, body func()) *Thread {
 	x.Version++
-	t := &Thread{ID: len(x.threads), Name: name, gate: make(chan struct{})}
+	t := &Thread{ID: len(x.threads), Name: name, gate: make(chan struct{}), StartStep: -1}
 	if p := x.cur; p != nil {
 		t.H = mix(p.H, uint64(t.ID)+1000)
 		p.H = mix(p.H, 31337)
@@ -685,6 +688,7 @@ func Run(cfg Config, body func()) *Exec {
 			idx = x.choose('s', n, curEn, tickAlt, 0, "")
 		}
 		if idx == len(en) {
+			x.Ticks++
 			x.logf("      ~ early clock tick")
 			x.advanceClock()
 			continue
@@ -694,6 +698,9 @@ func Run(cfg Config, body func()) *Exec {
 			x.logStep(t, t.desc, t.obj)
 		}
 		x.cur = t
+		if t.StartStep < 0 {
+			t.StartStep = x.steps
+		}
 		t.steps++
 		t.gate <- struct{}{}
 		<-x.back
@@ -762,6 +769,10 @@ func (x *Exec) nextDeadline() int64 {
 			if w < x.Now {
 				w = x.Now
 			}
+			// the horizon only stops self re-arming timers; sleeping threads always wake up
+			if w > x.cfg.Horizon {
+				continue
+			}
 			if min < 0 || w < min {
 				min = w
 			}
@@ -771,8 +782,7 @@ func (x *Exec) nextDeadline() int64 {
 }
 
 func (x *Exec) hasDeadline() bool {
-	d := x.nextDeadline()
-	return d >= 0 && d <= x.cfg.Horizon
+	return x.nextDeadline() >= 0
 }
 
 func (x *Exec) advanceClock() {
